@@ -156,10 +156,22 @@ def make_padding(p):
     return AlignedPadding(p["w"], p["h"], HAlign(p["ha"]), VAlign(p["va"]), fill)
 
 
+TERM0 = (8, 6)  # TW, TH of the RenderIter.tla configurations
+
+
+def set_terminal(size=TERM0) -> None:
+    """What the substituted get_terminal_size() answers (relative paddings resolve against it)."""
+    from .env import stubs
+
+    if stubs.ENV.installed:
+        stubs.ENV.term_size = tuple(size)
+
+
 class RealIter:
     """Executes RenderIter.tla operations on a real RenderIterator."""
 
     def __init__(self, init: dict, variant: int = 0, cache_override=None):
+        set_terminal()
         from term_image.padding import ExactPadding
         from term_image.render import RenderIterator
         from term_image.renderable import RenderArgs
@@ -268,6 +280,8 @@ class RealIter:
                 from term_image.geometry import Size
 
                 it.set_render_size(Size(*op["v"]))
+            elif name == "resize":
+                set_terminal(op["v"])  # the environment: the terminal is resized
             elif name == "close":
                 it.close()
             elif name == "drop":
